@@ -1336,4 +1336,44 @@ theorem compose_correct_thm (g : Graph) (pt : Part) (inputs : List Nat) (σ : En
       simp only [evalSrc]
       exact solution_unique g inputs hwf V _ hsol (eval_solution g inputs hwf) i hi p hp
 
+
+theorem mem_inPairs (g : Graph) (l : List Nat) (i j : Nat) :
+    (i, j) ∈ inPairs g l ↔ i ∈ l ∧ j < g.nIn i := by
+  simp only [inPairs, List.mem_flatMap, List.mem_map, List.mem_range, Prod.mk.injEq]
+  constructor
+  · rintro ⟨a, ha, b, hb, rfl, rfl⟩; exact ⟨ha, hb⟩
+  · rintro ⟨h1, h2⟩; exact ⟨i, h1, j, h2, rfl, rfl⟩
+
+theorem outPort_inj (g : Graph) (l : List Nat) (i p i' p' k : Nat)
+    (hi : i ∈ l) (hp : p < g.nOut i) (hi' : i' ∈ l) (hp' : p' < g.nOut i')
+    (h : outPort g l i p = some k) (h' : outPort g l i' p' = some k) : i = i' ∧ p = p' := by
+  unfold outPort at h h'
+  split at h
+  · rename_i c
+    split at h'
+    · rename_i c'
+      simp only [Option.some.injEq] at h h'
+      have := rank_inj (hasExtCons g l) (outPairs g l) (i, p) (i', p')
+        ((mem_outPairs g l i p).mpr ⟨hi, hp⟩) ((mem_outPairs g l i' p').mpr ⟨hi', hp'⟩) c c'
+        (by unfold outIdx at h h'; rw [h, h'])
+      simpa using this
+    · cases h'
+  · cases h
+
+theorem inPort_inj (g : Graph) (l : List Nat) (i j i' j' k : Nat)
+    (hi : i ∈ l) (hj : j < g.nIn i) (hi' : i' ∈ l) (hj' : j' < g.nIn i')
+    (h : inPort g l i j = some k) (h' : inPort g l i' j' = some k) : i = i' ∧ j = j' := by
+  unfold inPort at h h'
+  split at h
+  · rename_i c
+    split at h'
+    · rename_i c'
+      simp only [Option.some.injEq] at h h'
+      have := rank_inj (isPortIn g l) (inPairs g l) (i, j) (i', j')
+        ((mem_inPairs g l i j).mpr ⟨hi, hj⟩) ((mem_inPairs g l i' j').mpr ⟨hi', hj'⟩) c c'
+        (by unfold inIdx at h h'; rw [h, h'])
+      simpa using this
+    · cases h'
+  · cases h
+
 end BMV.Frag
